@@ -15,21 +15,21 @@ def c(text, ref, extra_tech, trusted):
 CHECKS = {
  'C01': c('Every path of schedule/step/peek/Environment.__init__ and of the Timeout/Initialize/Interruption constructors is '
           'shown equivalent to a reference table: agenda key (now+delay, priority, next id, event), clock written from the '
-          'popped key only, negative delay refused before scheduling. Whole-repo scans: writers of the clock, agenda and '
+          'popped key only, negative delay refused before scheduling; the refusing guards of Timeout(delay) and run(until) evaluated for a NaN argument. Whole-repo scans: writers of the clock, agenda and '
           'insertion counter; priority class and constants at all 9+ schedule() sites. Time order / urgent-first / trigger '
           'order follow from these by a short argument (DESIGN); universally quantified over programs because it is about '
           'the code, not about sampled runs.',
           'C01', 'who-may scans over the whole repository and constant resolution', 'IEEE addition monotone for non-negative delays'),
  'C02': c('Environment.step (callbacks swapped to None, each called once in list order, undefused failure re-raised as a '
-          'copy), Event.succeed/fail/trigger (second trigger refused before any write), Process._resume (value sent / '
+          'copy), Event.succeed/fail/trigger (second trigger refused before any write; a Process refuses hand-made triggers), Process._resume (value sent / '
           'failure defused and thrown as a copy / termination outcome / immediate continuation on processed events / single '
           'subscription) equivalent to reference tables; who-may scans of outcome writers and of every growth or removal on a '
-          'callbacks list; exception classes clonable.',
+          'callbacks list; exception classes clonable; handlers around a step() call name only the stop signal.',
           'C02', 'who-may scans of _ok/_value/callbacks sites', 'what user callbacks do'),
  'C03': c('Environment.run equivalent to the reference (numeric until refused iff at <= now, fresh private sentinel URGENT at '
           'at-now, stop callback only on that sentinel; event until polled after each step so every waiter is resumed before '
           'the stop), step and StopSimulation.callback; whole-repo flow scan for nondeterminism sources (wall clock, id/hash, '
-          'uuid reaching anything but __repr__, order-sensitive iteration over sets).',
+          'uuid reaching anything but __repr__, order-sensitive iteration over sets incl. float accumulation).',
           'C03', 'a whole-repo scan of nondeterminism sources classified by sink', 'user programs are themselves deterministic'),
  'C04': c('Interruption.__init__ (pre-failed, pre-defused, dead and self targets refused before scheduling, URGENT), '
           '_interrupt (dead victim ignored, victim alone detached, then resumed), Process.__init__/Initialize (start scheduled '
@@ -46,7 +46,7 @@ CHECKS = {
           'C06', 'class-shape checks and who-may scans', 'each process holds or awaits at most one request per resource'),
  'C07': c('Container guards and constructor bounds, Store/PriorityStore/FilterStore _do_put/_do_get, the scan loops, request '
           'constructors and cancel-with-rescan equivalent to reference tables; who-may scans of _level, items and the queues; '
-          'heapq resolved.',
+          'heapq resolved; Container amount/bound guards evaluated for NaN.',
           'C07', 'class-shape checks and who-may scans', 'items of a PriorityStore are orderable'),
  'C08': c('Per element: put()/run()/__init__ of ports, wires, token buckets, every scheduler, demuxes, switches, generator, '
           'sink and Packet equivalent to reference tables; element registry exhaustive; every put() path disposes of the packet '
@@ -55,13 +55,13 @@ CHECKS = {
           'servers spawned once with their own environment; no uncovered override.',
           'C08', 'path, shape and who-may rules over all element classes', 'kernel stores are FIFO / heap ordered (C07); no re-entrancy through out.put'),
  'C09': c('Port.put (thresholds, byte accounting, hop stamp), Port.run (8*size/rate, bytes released on every path, one '
-          'forward), REDPort.put (EWMA gain, three regions, one draw), PortMonitor.run equivalent to reference tables; inc/dec '
+          'forward), REDPort.put (EWMA gain, three regions, one draw), PortMonitor.run (packet in service = what the port server holds, also before it is resumed) equivalent to reference tables; inc/dec '
           'pairing of byte_size for Port and every subclass; overriding put keeps the base effects.',
           'C09', 'inc/dec pairing and sibling rules', 'random.uniform; kernel Store FIFO'),
- 'C10': c('Wire.put, Wire.run (loss first with one draw, kept packet: one delay draw, wait delay - queued time iff positive, '
+ 'C10': c('Wire.put (entry instant queued with the packet), Wire.run (loss first with one draw, kept packet: one delay draw, wait delay - queued time iff positive, '
           'one forward), Cable construction and endpoints equivalent to reference tables.',
           'C10', 'spawn-site and override rules', 'distribution of the draws; kernel Store FIFO'),
- 'C11': c('TokenBucket.run and TwoRateTokenBucket.run (refills with caps, exact deficit wait, debits, update instants, colour '
+ 'C11': c('Bucket constructors (full, refill origin = instant of creation), TokenBucket.run and TwoRateTokenBucket.run (refills with caps, exact deficit wait, debits, update instants, colour '
           'decision, peak spacing) equivalent to reference tables; store shape agreement; no assert on a level that may be 0.',
           'C11', 'shape and sign rules', 'float rounding ignored; conformance inequality follows by the textbook argument'),
  'C12': c('Scheduler.send_packet, add_packet_to_queue, MultiQueueScheduler.put (wake-up token iff empty on entry), every '
@@ -71,7 +71,7 @@ CHECKS = {
  'C13': c('SP.__init__ (scan list sorted by priority value, descending) and SP.run (skip iff empty at the time, one awaited '
           'service, scan left and restarted after every service) equivalent to reference tables, plus the rescan path rule.',
           'C13', 'a loop-exit path rule', 'positive priorities'),
- 'C14': c('WFQ.put/run/update_vtime/reset_vtime and VC.put/run equivalent to reference tables (stamp on every path, V '
+ 'C14': c('WFQ.put/run/serve/update_vtime/reset_vtime and VC.put/run equivalent to reference tables (stamp on every path, smallest stamp chosen in the step that starts the transmission, V '
           'updated before stamping and after each transmission); heap key = PriorityItem ending in an arrival number '
           'incremented by the same call, payload never compared.',
           'C14', 'a key-shape rule and key-domain unification', 'heapq; the weighted-service bound follows from stamp order'),
@@ -79,7 +79,7 @@ CHECKS = {
           'debit, credit reset on empty, parked head under its class, per-visit allowances).',
           'C15', 'awaited-send and key-domain rules', 'the fairness bound follows by the DRR lemma'),
  'C16': c('TCPSink.packet_arrived/put (ACK is a function of the receive buffer only: end of the first range iff it starts at '
-          '0), sender run/put/timeout_callback/resend_packet and the Timer equivalent to reference tables; splat shape of '
+          '0), sender run/put (a cumulative ACK drops the timers of every segment it covers)/timeout_callback/resend_packet and the Timer equivalent to reference tables; splat shape of '
           'Timer args; network-supplied keys guarded; one ACK-class offset literal. Liveness over loss patterns is NOT decided '
           '(necessary structure only).',
           'C16', 'flow (data-dependence), shape and taint rules', 'reliability under every finite loss pattern is outside static reach'),
@@ -90,7 +90,7 @@ CHECKS = {
           'construction, flow and FIB generation equivalent to reference tables; every mutable Packet member re-created by '
           '__copy__; one ACK-class offset literal.',
           'C18', 'an aliasing rule', 'networkx all_shortest_paths; end-to-end delivery is a run-time statement'),
- 'C19': c('Timer.__init__ (argument normalisation), run, stop, restart and the sender\'s timeout_callback equivalent to '
+ 'C19': c('Timer.__init__ (argument normalisation), run (pending-expiry flag instead of a clock comparison), stop, restart and the sender\'s timeout_callback equivalent to '
           'reference tables; restart reachable from the timer\'s own process through callback edges, so its interrupt is '
           'guarded by the active-process test; interrupt guard implies the callee precondition.',
           'C19', 'a call-graph (callback edge) rule and a guard-implication rule', 'callbacks that raise'),
